@@ -50,6 +50,7 @@ type Ob struct {
 
 type TableRow struct {
 	Rule, Fn, Construct, Verdict, Reason string
+	Anchor                               string // optional machine-checked facts the exemption relies on (anchors.go)
 	used                                 bool
 }
 
@@ -97,6 +98,11 @@ type Ctx struct {
 
 	obs      []*Ob
 	keyCount map[string]int
+	posTok   token.Pos
+	fnByName map[string]*ssa.Function
+	peekOK   int
+	peekWhy  string
+	anchorsVerified int
 	table    map[string]*TableRow
 	mins     map[string]int
 	known    KnownFile
@@ -346,7 +352,10 @@ func topFn(f *ssa.Function) *ssa.Function {
 // ---------------------------------------------------------------- ledger
 
 func (c *Ctx) add(rule, fn, construct string, pos token.Pos, st Status, detail string) *Ob {
-	return c.addp(rule, fn, construct, c.pos(pos), st, detail)
+	c.posTok = pos
+	o := c.addp(rule, fn, construct, c.pos(pos), st, detail)
+	c.posTok = token.NoPos
+	return o
 }
 
 func (c *Ctx) addp(rule, fn, construct, pos string, st Status, detail string) *Ob {
@@ -360,8 +369,27 @@ func (c *Ctx) addp(rule, fn, construct, pos string, st Status, detail string) *O
 	if st == StViolation || st == StUndecided {
 		if row, ok := c.table[key]; ok && row.Verdict == "exempt" {
 			row.used = true
-			o.Status = StExempt
-			o.Reason = row.Reason
+			if os.Getenv("ZY_ANCHOR_PROBE") != "" && row.Anchor == "" && c.Prog != nil {
+				for _, a := range []string{"lenguard", "peek"} {
+					probe := *row
+					probe.Anchor = a
+					if ok, why := c.anchorHolds(&probe, o, c.posTok); ok {
+						fmt.Printf("ANCHOR-PROBE\t%s\t%s\n", key, a)
+					} else if os.Getenv("ZY_ANCHOR_PROBE") == "why" {
+						fmt.Printf("ANCHOR-NO\t%s\t%s\t%s\n", key, a, why)
+					}
+				}
+			}
+			if holds, why := c.anchorHolds(row, o, c.posTok); holds {
+				o.Status = StExempt
+				o.Reason = row.Reason
+				if row.Anchor != "" {
+					o.Reason += " [anchor verified: " + row.Anchor + "]"
+					c.anchorsVerified++
+				}
+			} else {
+				o.Detail += " — the table row that exempts this construct relies on `" + row.Anchor + "`, which no longer holds: " + why
+			}
 		}
 	} else if row, ok := c.table[key]; ok {
 		row.used = true
@@ -428,6 +456,9 @@ func (c *Ctx) loadTables() {
 			die("%s:%d: want rule<TAB>function<TAB>construct<TAB>verdict<TAB>reason", path, ln)
 		}
 		row := &TableRow{Rule: parts[0], Fn: parts[1], Construct: parts[2], Verdict: parts[3], Reason: parts[4]}
+		if len(parts) > 5 {
+			row.Anchor = strings.TrimSpace(parts[5])
+		}
 		if row.Verdict != "exempt" && row.Verdict != "ok" {
 			die("%s:%d: verdict must be ok|exempt", path, ln)
 		}
@@ -576,6 +607,7 @@ func (c *Ctx) finish() int {
 		"checker_cmd":         fmt.Sprintf("./check %s %s", c.Prop, c.Tier),
 		"trusted_base":        []string{"go/types, go/ssa, go/packages (x/tools v0.29.0)", "Go language semantics of the inspected constructs", "tables in zycheck/tables/" + c.Prop + ".tsv (each row: one keyed construct + reason)"},
 		"stale_table_rows":    stale,
+		"table_anchors_verified": c.anchorsVerified,
 	}
 	for k, v := range c.notes {
 		cov[k] = v
